@@ -17,12 +17,25 @@ PY = "/venv/bin/python"
 RFILES = os.path.join(VERIF, "vlib", "rfiles")
 
 
+_port_counter = [0]
+
+
 def free_port():
-    s = socket.socket()
-    s.bind(("127.0.0.1", 0))
-    p = s.getsockname()[1]
-    s.close()
-    return p
+    """A port from a range private to this harness process (parallel shards must never race for the same port)."""
+    shard = os.environ.get("VERIF_SHARD")
+    base = 21000 + int(shard) * 600 if shard is not None else 31000 + (os.getpid() % 40) * 600
+    for _ in range(600):
+        _port_counter[0] += 1
+        p = base + (_port_counter[0] * 7 + os.getpid()) % 600
+        s = socket.socket()
+        try:
+            s.bind(("127.0.0.1", p))
+        except OSError:
+            continue
+        finally:
+            s.close()
+        return p
+    raise RuntimeError("no free port in the private range")
 
 
 class Server(object):
@@ -133,7 +146,11 @@ class Server(object):
                 return False
             r, data, err = self.request("/pid", timeout=2.0)
             if r is not None and r.ok and r.status == 200:
-                return True
+                m = re.search(rb"pid=(\d+)", r.body)
+                st = stat(int(m.group(1))) if m else None
+                # make sure the answer comes from a worker of THIS master (or of a master it re-exec'ed)
+                if st and (st["ppid"] == self.pid or (stat(st["ppid"]) or {}).get("sid") == self.sid):
+                    return True
             time.sleep(0.1)
         return False
 
